@@ -65,7 +65,38 @@ func newLanguage(name string) languages.Language {
 //	aliased   object Root = {f: T} next to an object Al = ref(p.S), an alias of
 //	          the struct S (Java's RemoveIntersections only acts when such an
 //	          alias object exists; without it that pass of the chain is idle)
+//
+// Multi-occurrence placements: the SAME term sits in two or three positions of
+// one schema with different requiredness, in both orders ("second occurrence of
+// a shape a pass already handled" — passes with per-run state: generated object
+// names, caches). Enumerated for terms of depth <= 2 (quick) / <= 3 (thorough):
+//
+//	twice-ro    Root = {f: T, g?: T}
+//	twice-or    Root = {f?: T, g: T}
+//	thrice-roa  Root = {f: T, g?: T, h?: array(T)}
+//	thrice-aor  Root = {f?: array(T), g?: T, h: T}
+//	objs-ro     Root = {f: T},  Zed = {g?: T}     (two objects of package p)
+//	objs-or     Root = {f?: T}, Zed = {g: T}
+//	objs-to     Root = T,       Zed = {g?: T}
 var places = []string{"root", "field", "optfield", "aliased"}
+
+var multiPlaces = []string{"twice-ro", "twice-or", "thrice-roa", "thrice-aor", "objs-ro", "objs-or", "objs-to"}
+
+func isMulti(place string) bool {
+	for _, p := range multiPlaces {
+		if p == place {
+			return true
+		}
+	}
+	return false
+}
+
+func multiDepth(thorough bool) int {
+	if thorough {
+		return 3
+	}
+	return 2
+}
 
 type testCase struct {
 	Place string
@@ -85,6 +116,39 @@ func (c testCase) spec() irgen.SchemaSpec {
 		sp.Name = "aliased:" + c.Term.String()
 		sp.Pkgs[0].Objects = append(sp.Pkgs[0].Objects, irgen.ObjSpec{Name: "Al", T: irgen.Ref(irgen.Pkg + ".S")})
 		return sp
+	case "twice-ro", "twice-or", "thrice-roa", "thrice-aor", "objs-ro", "objs-or", "objs-to":
+		t := c.Term
+		var root irgen.Term
+		var zed *irgen.Term
+		fld := func(name string, req bool) irgen.Field { return irgen.Field{Name: name, Required: req} }
+		switch c.Place {
+		case "twice-ro":
+			root = irgen.StructN([]irgen.Field{fld("f", true), fld("g", false)}, []irgen.Term{t, t})
+		case "twice-or":
+			root = irgen.StructN([]irgen.Field{fld("f", false), fld("g", true)}, []irgen.Term{t, t})
+		case "thrice-roa":
+			root = irgen.StructN([]irgen.Field{fld("f", true), fld("g", false), fld("h", false)}, []irgen.Term{t, t, irgen.Array(t)})
+		case "thrice-aor":
+			root = irgen.StructN([]irgen.Field{fld("f", false), fld("g", false), fld("h", true)}, []irgen.Term{irgen.Array(t), t, t})
+		case "objs-ro":
+			root = irgen.Struct1("f", true, t)
+			z := irgen.Struct1("g", false, t)
+			zed = &z
+		case "objs-or":
+			root = irgen.Struct1("f", false, t)
+			z := irgen.Struct1("g", true, t)
+			zed = &z
+		case "objs-to":
+			root = t
+			z := irgen.Struct1("g", false, t)
+			zed = &z
+		}
+		sp := irgen.WithRoot(root)
+		sp.Name = c.witness()
+		if zed != nil {
+			sp.Pkgs[0].Objects = append(sp.Pkgs[0].Objects, irgen.ObjSpec{Name: "Zed", T: *zed})
+		}
+		return sp
 	default:
 		return irgen.WithField(c.Term, false)
 	}
@@ -98,6 +162,10 @@ func (c testCase) size() int {
 		return c.Term.Size() + 1
 	case "aliased":
 		return c.Term.Size() + 3
+	case "twice-ro", "twice-or", "objs-ro", "objs-or", "objs-to":
+		return 2*c.Term.Size() + 4
+	case "thrice-roa", "thrice-aor":
+		return 3*c.Term.Size() + 6
 	}
 	return c.Term.Size() + 2
 }
@@ -115,6 +183,14 @@ func (c testCase) parents() []string {
 		out = append(out, testCase{"field", c.Term}.witness())
 	case "field":
 		out = append(out, testCase{"root", c.Term}.witness())
+	case "twice-ro", "twice-or", "objs-ro", "objs-or": // delete one field / one object
+		out = append(out, testCase{"field", c.Term}.witness(), testCase{"optfield", c.Term}.witness())
+	case "objs-to":
+		out = append(out, testCase{"root", c.Term}.witness(), testCase{"optfield", c.Term}.witness())
+	case "thrice-roa": // delete the third field
+		out = append(out, testCase{"twice-ro", c.Term}.witness())
+	case "thrice-aor":
+		out = append(out, testCase{"twice-or", c.Term}.witness())
 	case "root":
 		// Root = {a: X} is the field placement of X up to the field's name
 		if t := c.Term; t.K == "struct" && len(t.Sub) == 1 && !t.Nullable {
@@ -153,7 +229,7 @@ func candidates(l irgen.Term) []irgen.Term {
 	var out []irgen.Term
 	switch l.K {
 	case "const":
-		out = append(out, irgen.S(map[string]string{"str": "string", "int": "int64", "bool": "bool", "float": "float64"}[l.A]))
+		out = append(out, irgen.S(map[string]string{"str": "string", "int": "int64", "bool": "bool", "float": "float64", "digits": "string", "digits2": "string"}[l.A]))
 	case "ref":
 		if l.A != irgen.Pkg+".S" {
 			out = append(out, irgen.Ref(irgen.Pkg+".S"))
@@ -234,7 +310,7 @@ func oneLeaf(t irgen.Term) []irgen.Term {
 }
 
 func enumFlavours() []irgen.Term {
-	return []irgen.Term{irgen.Enum("numname"), irgen.Enum("odd"), irgen.Enum("space"), irgen.Enum("plus"), irgen.Enum("noname")}
+	return []irgen.Term{irgen.Enum("numname"), irgen.Enum("strnum"), irgen.Enum("odd"), irgen.Enum("space"), irgen.Enum("plus"), irgen.Enum("noname")}
 }
 
 // terms enumerates the grammar of the tier and closes it under one-step
@@ -272,6 +348,12 @@ func terms(thorough bool) []irgen.Term {
 			all = append(all, w)
 		}
 	}
+	// unions of string constants made of digits only: DisjunctionOfConstantsToEnum
+	// turns them into string enums whose member names are purely numeric
+	dg := irgen.Disj(irgen.Const("digits"), irgen.Const("digits2"))
+	all = append(all, wrap(dg)...)
+	all = append(all, wrap(irgen.Disj(irgen.Const("digits"), irgen.Const("digits2"), irgen.Null()))...)
+	all = append(all, irgen.Disj(irgen.Const("digits"), irgen.Enum("strnum")), irgen.Disj(irgen.Const("digits"), irgen.Const("str")))
 	// maps indexed by an anonymous struct / a union
 	all = append(all, irgen.MapIdx(irgen.Struct1("a", true, irgen.S("string")), irgen.S("string")), irgen.MapIdx(irgen.Disj(irgen.S("string"), irgen.S("int64")), irgen.S("string")))
 	// discriminated union of references, three branches and with null
@@ -314,7 +396,7 @@ func terms(thorough bool) []irgen.Term {
 var pipeline = &codegen.Pipeline{} // default configuration: no final passes, no builders
 
 var inputObjects = func() map[string]bool {
-	m := map[string]bool{"Root": true, "Al": true}
+	m := map[string]bool{"Root": true, "Al": true, "Zed": true}
 	for _, o := range irgen.Support(irgen.Pkg) {
 		m[o.Name] = true
 	}
@@ -553,6 +635,11 @@ func main() {
 		for _, p := range places {
 			cases = append(cases, testCase{p, t})
 		}
+		if t.Depth() <= multiDepth(r.Thorough()) {
+			for _, p := range multiPlaces {
+				cases = append(cases, testCase{p, t})
+			}
+		}
 	}
 	if r.Seed != 0 { // VERIF_SEED only permutes the work order
 		n := len(cases)
@@ -654,6 +741,12 @@ func main() {
 			samples = append(samples, sm)
 		}
 	}
+	multiCases := 0
+	for i, c := range cases {
+		if done[i] && isMulti(c.Place) {
+			multiCases++
+		}
+	}
 	exhaustive := completed == len(cases)
 	chains := map[string][]string{}
 	for _, l := range langs {
@@ -671,6 +764,9 @@ func main() {
 		"exhaustive":                    exhaustive,
 		"terms":                         len(ts),
 		"placements":                    places,
+		"multi_occurrence_placements":   multiPlaces,
+		"multi_occurrence_term_depth":   multiDepth(r.Thorough()),
+		"multi_occurrence_cases":        multiCases,
 		"cases_enumerated":              len(cases),
 		"cases_completed":               completed,
 		"languages":                     langs,
@@ -681,7 +777,7 @@ func main() {
 		"per_language_clause_repaired_by_chain":    repaired,
 		"per_language_clause_failing_cases":        failing,
 		"distinct_outcome_classes":                 len(outcomeClasses),
-		"explanation":                              "every type term of grammar I (depth " + depth + "; plus flat 3-branch unions with null, maps with non-string index types, two-field structs; closed under one-step reductions) is placed as the type of object Root, as a required and as an optional field of struct Root, and as a required field next to an alias object Al = ref(p.S) (package p with support objects S,T,E,A,K); for each and each language the real codegen.Pipeline.ContextForLanguage is executed (language.CompilerPasses() through compiler.Passes.Process); chain errors are counted and not judged, panics are recorded as crash:<pass>; on success the resulting schemas are judged by a complete walker (fields, array elements, map index and value, union and intersection branches, enum member types); failing cases are re-run pass by pass to name the pass after which the construct sits where it ends up",
+		"explanation":                              "every type term of grammar I (depth " + depth + "; plus flat 3-branch unions with null, maps with non-string index types, two-field structs; closed under one-step reductions) is placed as the type of object Root, as a required and as an optional field of struct Root, as a required field next to an alias object Al = ref(p.S), and (terms up to the multi-occurrence depth) TWICE or THRICE in one schema with different requiredness in both orders: two/three fields of Root, or Root and a second object Zed (package p with support objects S,T,E,A,K); for each and each language the real codegen.Pipeline.ContextForLanguage is executed (language.CompilerPasses() through compiler.Passes.Process); chain errors are counted and not judged, panics are recorded as crash:<pass>; on success the resulting schemas are judged by a complete walker (fields, array elements, map index and value, union and intersection branches, enum member types); failing cases are re-run pass by pass to name the pass after which the construct sits where it ends up",
 	}
 	if !exhaustive {
 		cov["completed_bound"] = fmt.Sprintf("%d of %d cases in work order (smallest first) before the internal deadline", completed, len(cases))
